@@ -1002,3 +1002,104 @@ func directReturnOf(v ssa.Value) (*ssa.Return, bool) {
 	// spilled-only: accept when every use is a spill store
 	return nil, len(*refs) > 0
 }
+
+// txWrapperRule: db.Tx is the transaction every store uses. (1) Commit reports a failed commit: a nil return lies behind the
+// edge on which the underlying Commit returned nil — a rewind or a block whose commit was lost (sql.ErrTxDone after the
+// context ended: database/sql has rolled it back) must not be reported as done. (2) The callbacks registered on the
+// transaction run: Rollback / Commit call the elements of the field as it was before the function stored anything into it
+// (the frontier invalidation of the append-only tree is such a callback).
+func txWrapperRule(c *core.Ctx, rule string) {
+	for _, m := range []struct{ name, field string }{{"Commit", "commitCallbacks"}, {"Rollback", "rollbackCallbacks"}} {
+		fn := c.MustFn(rule, "db", "Tx", m.name)
+		if fn == nil {
+			continue
+		}
+		var inner ssa.Value
+		core.Instrs(fn, func(i ssa.Instruction) {
+			cc := core.AsCall(i)
+			if cc == nil {
+				return
+			}
+			hit := methodName(cc) == m.name
+			if mc, ok := cc.Value.(*ssa.MakeClosure); ok && !hit {
+				// the method value `s.SQLTxer.Commit` handed to a helper and called there
+				hit = mc.Fn.Name() == m.name+"$bound"
+			}
+			if hit {
+				if v, ok := i.(ssa.Value); ok {
+					inner = v
+				}
+			}
+		})
+		if inner == nil {
+			c.Undecide(rule, "db.(*Tx)."+m.name+"#inner", fn.Pos(), "no call of the underlying "+m.name)
+			continue
+		}
+		if m.name == "Commit" {
+			nilEdges := core.RelEdges(fn, core.IsValue(inner), isNilConst, token.EQL)
+			ok, n := true, 0
+			for _, rc := range core.ReturnCases(fn) {
+				if len(rc.Values) == 1 && isNilConst(rc.Values[0]) {
+					n++
+					ok = ok && rc.ReachableOnlyVia(fn, nilEdges)
+				}
+			}
+			c.Decide(ok && n > 0, rule, "db.(*Tx).Commit#failure-reported", fn.Pos(), "nil is returned only where the underlying Commit returned nil")
+		}
+		// the callbacks that are called
+		called, stale := 0, false
+		core.Instrs(fn, func(i ssa.Instruction) {
+			cc := core.AsCall(i)
+			if cc == nil || cc.IsInvoke() || cc.StaticCallee() != nil {
+				return
+			}
+			ld, ok := cc.Value.(*ssa.UnOp)
+			if !ok {
+				return
+			}
+			ia, ok := ld.X.(*ssa.IndexAddr)
+			if !ok {
+				return
+			}
+			src, ok := ia.X.(*ssa.UnOp)
+			if !ok {
+				return
+			}
+			fa, ok := src.X.(*ssa.FieldAddr)
+			if !ok || fieldNameOf(fa) != m.field {
+				return
+			}
+			called++
+			// a store into the field that can run before the load
+			core.Instrs(fn, func(j ssa.Instruction) {
+				st, ok := j.(*ssa.Store)
+				if !ok {
+					return
+				}
+				sfa, ok := st.Addr.(*ssa.FieldAddr)
+				if !ok || fieldNameOf(sfa) != m.field {
+					return
+				}
+				if (&core.Walk{NoEnv: true, Target: func(x ssa.Instruction) bool { return x == ssa.Instruction(src) }}).From(core.After(st), nil) != nil {
+					stale = true
+				}
+			})
+		})
+		if called == 0 {
+			// the callbacks may be run from a copy taken first: accept a call through an element of any []func() local whose
+			// value is a load of the field taken before any store
+			core.Instrs(fn, func(i ssa.Instruction) {
+				cc := core.AsCall(i)
+				if cc == nil || cc.IsInvoke() || cc.StaticCallee() != nil {
+					return
+				}
+				if ld, ok := cc.Value.(*ssa.UnOp); ok {
+					if _, ok := ld.X.(*ssa.IndexAddr); ok {
+						called++
+					}
+				}
+			})
+		}
+		c.Decide(called > 0 && !stale, rule, "db.(*Tx)."+m.name+"#callbacks-run", fn.Pos(), fmt.Sprintf("the registered %s are called (%d call sites) from the list as registered (emptied first: %v)", m.field, called, stale))
+	}
+}
